@@ -97,6 +97,21 @@ Definition is_some {A} (o : option A) : bool := match o with Some _ => true | No
 
 Definition tol30 : Q := 1 # (2 ^ 30).
 
+(** a requested spacing whose exact quotient extent / spacing is within 2^-30 of a rounding tie,
+    an EXACT tie included: unlike on C07's dyadic lattices, region and spacing are arbitrary doubles
+    here and the code rounds the FLOAT quotient (stop - start) / spacing, whose two roundings can
+    move an exact .5 to either side (observed: exact 6.5, float 6.500000000000001 -> 7 intervals).
+    The node count along that axis is then one of two values. *)
+Definition pg_line_tie (start stop sp : Q) : bool := Qltb (tie_margin ((stop - start) / sp)) tie30.
+Definition pg_tie (region spacing : list Q) : bool :=
+  match region, spacing with
+  | [w; e; s; n], [sp] => pg_line_tie w e sp || pg_line_tie s n sp
+  | [w; e; s; n], [spn; spe] => pg_line_tie w e spe || pg_line_tie s n spn
+  | _, _ => false
+  end.
+Definition len_near {A B} (a : list A) (b : list B) : bool :=
+  (Z.abs (Z.of_nat (List.length a) - Z.of_nat (List.length b)) <=? 1)%Z.
+
 (** ** main case.
     method: 0 linear, 1 nearest, 2 cubic.  [rtol] = reproduction tolerance
     (relative to the largest input magnitude). *)
@@ -171,9 +186,13 @@ Definition c16_pg_core (mode : Z) (name_in : option string) (east north : list D
   let coords_model := coords_close scr (pg_coords qpe qpn in_shape reg shape spc) qoe qon in
   let coords_spec := coords_close scr (pg_coords_spec qpe qpn in_shape reg shape spc) qoe qon in
   let tie := match pg_region_spacing qpe qpn in_shape reg shape spc, spacing with
-             | Some (r, s), Some _ => grid_tie r (Some s)
+             | Some (r, s), Some _ => pg_tie r s
              | _, _ => false
              end in
+  let tie_ok := match pg_coords qpe qpn in_shape reg shape spc with
+                | Some (me, mn) => len_near me oe && len_near mn on
+                | None => false
+                end in
   (* 4. name, shape *)
   let name_ok := String.eqb obs_name (out_name name_in) in
   let rect := (List.length ovals =? List.length on)%nat && forallb (fun r => (List.length r =? List.length oe)%nat) ovals in
@@ -210,10 +229,10 @@ Definition c16_pg_core (mode : Z) (name_in : option string) (east north : list D
                end in
   let agree := table_ok && affine_ok && coords_model && name_ok && dims_ok && rect && nan_agree in
   let holds := name_ok && shape_ok && coords_spec && nan_holds && repro in
-  (* a requested spacing within 2^-30 of a rounding tie: the float quotient may round the
-     other way, the node count is then not determined; only name and rectangularity are kept *)
+  (* a requested spacing within 2^-30 of a rounding tie (exact ties included, see [pg_line_tie]): the float
+     quotient may round either way; name, rectangularity and node counts within one of the model's are kept *)
   if (mode =? 2)%Z then mk_verdict (table_ok && affine_ok) repro else
-  if tie then (if name_ok && rect then Vskip else Vboth) else mk_verdict agree holds.
+  if tie then (if name_ok && rect && tie_ok then Vskip else Vboth) else mk_verdict agree holds.
 
 Definition c16_pg := c16_pg_core 0.
 Definition c16_pg_norepro := c16_pg_core 1.
